@@ -189,6 +189,7 @@ def stepSt (cs : Nat) (s : St) : List String → St × String
     | _, _ => (s, "bad-op")
   | ["save", proc] => (s, opSave cs s proc)
   | ["saveseq", _] => (s, opSaveSeq s)
+  | ["save2", proc] => (s, opSave cs s proc)
   | _ => (s, "bad-op")
 
 def main (args : List String) : IO Unit :=
